@@ -68,7 +68,10 @@ def tree(depth):
         if t[0] == '/' and t[2][0] == 'num' and t[2][1] == 0:
             return ['/', t[1], ['num', 4]]
         return t
-    return st.one_of(leaf(), st.tuples(st.sampled_from(OPS), sub, right).map(list).map(fix))
+    # ['dup', op, t]: ONE calendar object used as both operands of op (operand objects may be shared)
+    dup = st.tuples(st.just('dup'), st.sampled_from(['+', '-', '*', '|']), sub).map(list)
+    return st.one_of(leaf(), st.tuples(st.sampled_from(OPS), sub, right).map(list).map(fix),
+                     st.tuples(st.sampled_from(OPS), sub, right).map(list).map(fix), dup)
 
 
 def bounds_of(t):
@@ -81,6 +84,8 @@ def bounds_of(t):
         out += list(t[1]) + list(t[2])
     elif t[0] in OPS:
         out += bounds_of(t[1]) + bounds_of(t[2])
+    elif t[0] == 'dup':
+        out += bounds_of(t[2])
     return [b for b in out if b]
 
 
@@ -129,6 +134,11 @@ def build(t):
     elif k == 'num':
         n.cal = None
         n.num = t[1]
+    elif k == 'dup':
+        sub = build(t[2])
+        n.kids = [sub, sub]
+        n.spec = [t[1], t[2], t[2]]
+        n.cal = {'+': lambda a: a + a, '-': lambda a: a - a, '*': lambda a: a * a, '|': lambda a: a | a}[t[1]](sub.cal)
     else:
         l, r = build(t[1]), build(t[2])
         n.kids = [l, r]
@@ -196,7 +206,7 @@ def check_node(n, d, v, path='root'):
     k = n.spec[0]
     if k == 'num':
         return
-    for i, kid in enumerate(n.kids):
+    for i, kid in enumerate(n.kids[:1] if len(n.kids) == 2 and n.kids[0] is n.kids[1] else n.kids):
         check_node(kid, d, v, path + '.' + 'LR'[i])
     try:
         got = n.cal.get_available_units(d)
@@ -247,6 +257,8 @@ def check_node(n, d, v, path='root'):
 
 
 def ops_count(t):
+    if t[0] == 'dup':
+        return 1 + ops_count(t[2])
     return (1 + ops_count(t[1]) + ops_count(t[2])) if t[0] in OPS else 0
 
 
